@@ -34,7 +34,7 @@ struct Shared {
 }
 
 fn spawn() -> std::io::Result<(Child, Arc<Shared>, std::thread::JoinHandle<()>)> {
-    let mut child = Command::new(binary()).stdin(Stdio::piped()).stdout(Stdio::piped()).stderr(Stdio::null()).spawn()?;
+    let mut child = Command::new(binary()).env("TOKIO_WORKER_THREADS", "4").stdin(Stdio::piped()).stdout(Stdio::piped()).stderr(Stdio::null()).spawn()?;
     let mut out = child.stdout.take().unwrap();
     let shared = Arc::new(Shared { buf: Mutex::new((vec![], false)), cv: Condvar::new() });
     let s2 = shared.clone();
